@@ -28,7 +28,8 @@ def run(ck):
     items = ["ok", "fail", "cancel_queued", "cancel_inflight"]
     for kind in KINDS:
         for i in range(12 if quick else 120):
-            hist = [rng.choice(items) for _ in range(rng.choice([1, 2, 3]))]
+            hist = [rng.choice(items + (["cancel_between", "cancel_between"] if kind == "retry" else []))
+                    for _ in range(rng.choice([1, 2, 3]))]
             tasks.append({"scen": "reclaim", "params": {"kind": kind, "mode": "refs", "hist": hist},
                           "strat": ["random", rng.randrange(10 ** 9), 0.5], "gran": "sync",
                           "facts": {"kind": kind, "hist": "+".join(sorted(set(hist)))}})
